@@ -123,6 +123,12 @@ def generate(seed, mode):
             # an *instance* declared as a factory (implementer(...)(ob) stores what calling it gives in ob.__implemented__):
             # says nothing about what ob provides, nor about what super proxies of ob see
             ops.append({'op': 'obimpl', 'o': o.randrange(16), 'xs': xs(2, True), 'k': k})
+        elif r < 0.95 and o.random() < 0.4:
+            # fault `address-reuse`: a short-lived subclass with declarations of its own and an instance is queried, dropped and
+            # collected; another short-lived class (other bases, other declarations) takes its place -- and, if the allocator
+            # plays along, its address -- and is queried
+            ops.append({'op': 'churn', 'b1': [o.randrange(16) for _ in range(o.randint(1, 2))], 'xs1': xs(2, True),
+                        'b2': [o.randrange(16) for _ in range(o.randint(1, 2))], 'xs2': xs(2, True), 'k': k})
         elif r < 0.95:
             ops.append({'op': 'drop', 'o': o.randrange(16), 'k': k})
         else:
@@ -885,6 +891,65 @@ def execute(program, ctx, mode):
                         ctx.violation('C01', 'noLongerProvides(class)-should-raise', 'C01|noLongerProvides(class)|no-ValueError',
                                       {'class': c, 'iface': x})
                 m['dmust'], m['dmay'] = dm['must'], dm['may']
+            elif name == 'churn':
+                usable = [c for c in range(len(classes)) if not M.classes[c].get('slots')]
+                if not usable:
+                    continue
+
+                def short_lived(bsel, xsel, addr=None):
+                    bl = list(dict.fromkeys(usable[b % len(usable)] for b in bsel))
+                    T = None
+                    misses = []
+                    for _try in range(40 if addr is not None else 1):
+                        try:
+                            T = type('Tmp', tuple(classes[b] for b in bl), {'__module__': 'zisim.w'})
+                        except TypeError:
+                            bl = bl[:1]
+                            T = type('Tmp', (classes[bl[0]],), {'__module__': 'zisim.w'})
+                        if addr is None or id(T) == addr:
+                            break
+                        misses.append(T)
+                    if addr is not None and id(T) == addr:
+                        ctx.fault('address-reuse')
+                    xs_ = [x % nI for x in xsel]
+                    hi_b = set()
+                    lo_b = set()
+                    for b in bl:
+                        hi_b |= M.U(b)
+                        lo_b |= M.L(b)
+                    must, _may = M.classify(xs_, hi_b)
+                    if xs_:
+                        classImplements(T, *[ifs[x] for x in xs_])
+                    t = T()
+                    lo, hi = lo_b | M.clos(must), hi_b | M.clos(xs_)
+                    for what, got in (('implementedBy(class)', as_set(implementedBy(T))), ('providedBy(instance)', as_set(providedBy(t)))):
+                        if not (lo <= got <= hi):
+                            ctx.violation('C01', 'churn', 'C01|%s|short-lived-class|%s' % (what, 'missing' if lo - got else 'extra'),
+                                          {'bases': bl, 'declared': xs_, 'lo': sorted(lo), 'got': sorted(got), 'hi': sorted(hi), 'second': addr is not None})
+                    if want_super:
+                        # (a proxy sees every class after T in the MRO on its own: an *only* declaration of one of them does
+                        # not hide the classes further along)
+                        rest = [classes.index(x) for x in T.__mro__[1:] if x in classes]
+                        lo_b, hi_b = set(), set()
+                        for cc in rest:
+                            lo_b |= M.L(cc)
+                            hi_b |= M.U(cc)
+                        for mk_ in (super, SuperSub):
+                            got = as_set(providedBy(mk_(T, t)))
+                            if not (lo_b <= got <= hi_b):
+                                ctx.violation('C19', 'churn', 'C19|providedBy(super)|short-lived-class|%s' % ('missing' if lo_b - got else 'extra'),
+                                              {'bases': bl, 'lo': sorted(lo_b), 'got': sorted(got), 'hi': sorted(hi_b), 'second': addr is not None})
+                    a_ = id(T)
+                    del misses, t, T
+                    return a_, bl, xs_
+                a1, bl1, x1 = short_lived(op['b1'], op['xs1'])
+                gc.collect()
+                ctx.fault('drop')
+                ctx.fault('gc')
+                _a2, bl2, x2 = short_lived(op['b2'], op['xs2'], a1)
+                gc.collect()
+                ctx.probe('short-lived-classes')
+                ctx.log(step, 'churn', bl1, x1, bl2, x2)
             elif name == 'timpl':
                 xs = [x % nI for x in op['xs']]
                 classImplements(type, *[ifs[x] for x in xs])
